@@ -94,7 +94,13 @@ impl SocketRecv for RouterSocket {
 #[async_trait]
 impl SocketSend for RouterSocket {
     async fn send(&mut self, mut message: ZmqMessage) -> ZmqResult<()> {
-        assert!(message.len() > 1);
+        if message.len() < 2 {
+            // Not a programming error to assert on: `proxy()` forwards to this socket whatever
+            // a peer of the other socket sent, so a remote peer decides how many frames arrive.
+            return Err(ZmqError::Other(
+                "A message sent on a ROUTER needs an identity frame and at least one more frame",
+            ));
+        }
         let peer_id: PeerIdentity = message.pop_front().unwrap().try_into()?;
         let send_result = match self.backend.peers.get_async(&peer_id).await {
             Some(mut peer) => peer.send_queue.send(Message::Message(message)).await,
